@@ -1,6 +1,11 @@
 #!/usr/bin/python3
 """Prints a markdown table of the independently seeded changes archived under seeded/."""
 import glob, json, os
+V = os.path.dirname(os.path.dirname(os.path.abspath(__file__)))
+try:
+    CLOSED = json.load(open(os.path.join(V, "seeded", "CLOSED.json")))
+except (OSError, ValueError):
+    CLOSED = {}
 rows = []
 for d in sorted(glob.glob(os.path.join(os.path.dirname(os.path.dirname(os.path.abspath(__file__))), "seeded", "*"))):
     try:
@@ -13,9 +18,14 @@ for d in sorted(glob.glob(os.path.join(os.path.dirname(os.path.dirname(os.path.a
         for s in v.get("signatures", []):
             if s not in sigs:
                 sigs.append(s)
-    rows.append((os.path.basename(d), m.get("breaks_property", "?"), "yes" if m.get("kept", True) else "no", "yes" if m.get("caught") else "NO",
+    sid = os.path.basename(d)
+    caught = "yes" if m.get("caught") else "NO"
+    if caught == "NO" and sid in CLOSED:
+        caught = "no; since " + CLOSED[sid]["after"] + ": yes"
+        sigs = CLOSED[sid]["signatures"]
+    rows.append((sid, m.get("breaks_property", "?"), "yes" if m.get("kept", True) else "no", caught,
                  ", ".join("`%s`" % s for s in sigs[:3]) + (" …" if len(sigs) > 3 else ""), (m.get("summary") or "").replace("|", "/")[:170]))
 print("| seed | property | kept | caught | signatures (quick tier) | change |\n|---|---|---|---|---|---|")
 for r in rows:
     print("| %s | %s | %s | %s | %s | %s |" % r)
-print("\n%d seeds, %d kept, %d of the kept caught" % (len(rows), sum(r[2] == "yes" for r in rows), sum(r[2] == "yes" and r[3] == "yes" for r in rows)))
+print("\n%d seeds, %d kept, %d of the kept caught" % (len(rows), sum(r[2] == "yes" for r in rows), sum(r[2] == "yes" and r[3] != "NO" for r in rows)))
